@@ -677,10 +677,12 @@ func c20Shapes(thorough bool) []c20Shape {
 			switch {
 			case H <= 2, H == 3 && S <= 2:
 				d = closes
-			case H == 3:
+			case H == 3 && S == 3:
 				d = 6
-			case H == 5 && S == 4:
-				d = 4
+			case H == 3, H == 5 && S == 4:
+				d = 5 - (H-3)/2
+			case H == 8 && S == 4:
+				d = 3
 			case H <= 5:
 				d = 5
 			case H <= 8:
